@@ -1474,8 +1474,9 @@ impl<'a> Gen<'a> {
                 _ => true,
             };
             if ok {
-                let name = if !self.env.is_empty() && self.r.chance(1, 8) {
-                    self.r.pick(&self.env).0.clone()
+                let reuse = if !self.env.is_empty() && self.r.chance(1, 8) { Some(self.r.pick(&self.env).0.clone()) } else { None };
+                let name = if let Some(nm) = reuse.filter(|nm| !mentions(&n, nm)) {
+                    nm
                 } else {
                     self.nanchor += 1;
                     format!("{}{}", self.r.pick(&["a", "x-", "A_", "anchor"]), self.nanchor)
@@ -1587,6 +1588,17 @@ impl<'a> Gen<'a> {
     }
 }
 
+/// Does the node contain an alias (or a nested anchor) named `a`?
+pub fn mentions(n: &PNode, a: &str) -> bool {
+    match n {
+        PNode::Alias(x, _) => x == a,
+        PNode::Anchored(x, y) => x == a || mentions(y, a),
+        PNode::Seq { items, .. } => items.iter().any(|e| mentions(&e.1, a)),
+        PNode::Map { entries, .. } => entries.iter().any(|e| mentions(&e.3, a)),
+        _ => false,
+    }
+}
+
 pub fn ends_keep(n: &PNode) -> bool {
     match n {
         PNode::Str(_, SStyle::Literal { chomp: Chomp::Keep, .. }) | PNode::Str(_, SStyle::Folded { chomp: Chomp::Keep, .. }) => true,
@@ -1621,6 +1633,9 @@ fn feat_node(n: &PNode, parent_compact: bool, flow: bool, out: &mut Vec<&'static
         PNode::Str(s, SStyle::Literal { explicit, .. }) | PNode::Str(s, SStyle::Folded { explicit, .. }) => {
             if parent_compact && *explicit {
                 out.push("compact-explicit");
+            }
+            if parent_compact && !s.chars().any(|c| c != '\n') {
+                out.push("compact-bs-empty");
             }
             if s.split('\n').find(|l| !l.is_empty()).map_or(false, |l| l.starts_with('#')) {
                 out.push("bs-hash-first");
@@ -1729,15 +1744,20 @@ pub fn features(ps: &PStream) -> String {
     // textual: a line ending in `:` (+ comment) followed by a line starting with a quote
     let (t, _) = render_lf(ps);
     let lines: Vec<&str> = t.split('\n').collect();
-    for w in lines.windows(2) {
-        let a = w[0];
+    for (i, a) in lines.iter().enumerate() {
         let a = match a.find(" #") {
-            Some(i) => &a[..i],
+            Some(j) => &a[..j],
             None => a,
         };
-        let b = w[1].trim_start_matches(' ');
-        if a.trim_end_matches(' ').ends_with(':') && (b.starts_with('"') || b.starts_with('\'')) {
-            out.push("qkey-after-empty");
+        if !a.trim_end_matches(' ').ends_with(':') {
+            continue;
+        }
+        // next line that is neither blank nor a comment
+        let next = lines[i + 1..].iter().map(|l| l.trim_start_matches(' ')).find(|l| !l.is_empty() && !l.starts_with('#'));
+        if let Some(b) = next {
+            if b.starts_with('"') || b.starts_with('\'') {
+                out.push("qkey-after-empty");
+            }
         }
     }
     out.sort();
